@@ -7,7 +7,7 @@
 (* evaluated non-halting: each failure adds a record to viol, so one run   *)
 (* reports every violation of every property in every concatenated trace.  *)
 (***************************************************************************)
-EXTENDS ResObserver, CacheTrace, SubQueueTrace, ResQueueTrace, SubAccessTrace, Json, SequencesExt
+EXTENDS ResObserver, CacheTrace, SubQueueTrace, ResQueueTrace, SubAccessTrace, ResSubTrace, Json, SequencesExt
 
 Trace == ndJsonDeserialize("trace.ndjson")
 
@@ -27,7 +27,7 @@ NewClient(lg, v111, http) ==
 InitO(tr) ==
     [tr |-> tr, conns |-> <<>>, ann |-> <<>>, norm |-> <<>>, keyn |-> <<>>,
      mqsubs |-> {}, mqpend |-> <<>>, handed |-> <<>>, window |-> {},
-     refetch |-> <<>>, ctrig |-> <<>>, resets |-> <<>>, thr |-> <<>>, stop |-> [l |-> 0, cause |-> "", open |-> {}], down |-> FALSE, hadStop |-> FALSE, final |-> FALSE, resetObl |-> {}, keyq |-> <<>>, qev |-> <<>>, ce |-> <<>>, sq |-> <<>>, rq |-> <<>>, sa |-> <<>>]
+     refetch |-> <<>>, ctrig |-> <<>>, resets |-> <<>>, thr |-> <<>>, stop |-> [l |-> 0, cause |-> "", open |-> {}], down |-> FALSE, hadStop |-> FALSE, final |-> FALSE, resetObl |-> {}, keyq |-> <<>>, qev |-> <<>>, ce |-> <<>>, sq |-> <<>>, rq |-> <<>>, sa |-> <<>>, rst |-> <<>>]
 
 Short(s) == IF Len(s) > 48 THEN SubSeq(s, 1, 24) \o "...(" \o ToString(Len(s)) \o " characters)" ELSE s
 
@@ -416,16 +416,27 @@ H_note0(r) ==
       [] r.kind \in CENotes /\ ~o.hadStop /\ o.stop.l = 0 ->
             \* C09: the cache entry follows CacheEntry.tla in every critical section
             LET st == CEStep(Get(o.ce, r.n, CENew), r)
-            IN Res([o EXCEPT !.ce = Put(@, r.n, st.x)], {V("C09", "cache entry " \o Short(r.n) \o ": " \o m, "") : m \in st.errs})
+                \* an evicted entry takes the state of its resources with it (a later entry of the name starts afresh)
+                rst2 == IF r.kind = "cacheEvict" /\ r.done THEN [k \in {x \in DOMAIN o.rst : Get(o.keyn, x, x) # r.n /\ x # r.n} |-> o.rst[k]] ELSE o.rst
+            IN Res([o EXCEPT !.ce = Put(@, r.n, st.x), !.rst = rst2], {V("C09", "cache entry " \o Short(r.n) \o ": " \o m, "") : m \in st.errs})
       [] r.kind \in RQNotes /\ ~o.hadStop /\ o.stop.l = 0 ->
             \* C13 / C15: the resource's work queue and its query-event lock follow ResQueue.tla
             LET st == RQStep(Get(o.rq, r.n, RQNew), r)
             IN Res([o EXCEPT !.rq = Put(@, r.n, st.x)], {V(e.p, "work queue of " \o Short(r.n) \o ": " \o e.m, "") : e \in st.errs})
       [] OTHER -> Res(o, {})
 
+(* C03 / C12: a cached resource passes events on as ResSub.tla says *)
+H_note2(r) ==
+    LET b == H_note0(r)
+    IN IF r.kind \in RSTNotes /\ "key" \in DOMAIN r /\ ~o.hadStop /\ o.stop.l = 0
+       THEN LET st == RSTStep(Get(o.rst, r.key, RSTNew), r)
+            IN Res([b.o EXCEPT !.rst = Put(@, r.key, st.x)],
+                   b.v \cup {V(e.p, "cached resource " \o Short(r.key) \o ": " \o e.m, "") : e \in st.errs})
+       ELSE b
+
 (* C05 / C04: a subscription's access cache follows SubAccess.tla *)
 H_note1(r) ==
-    LET b == H_note0(r)
+    LET b == H_note2(r)
     IN IF r.kind \in SATNotes /\ "sp" \in DOMAIN r /\ ~o.hadStop /\ o.stop.l = 0
        THEN LET st == SATStep(Get(o.sa, r.sp, SATNew), r)
             IN Res([b.o EXCEPT !.sa = Put(@, r.sp, st.x)],
@@ -727,6 +738,7 @@ H_quiescent(r) ==
            \cup C09QViol(r) \cup C11Viol(r) \cup C19QViol
            \cup (IF o.hadStop THEN {} ELSE UNION {{V(e.p, "subscription " \o Short(o.sq[sp].rid) \o " of " \o o.sq[sp].c \o ": " \o e.m, "") : e \in SQTQuiescent(o.sq[sp].x)} : sp \in DOMAIN o.sq})
            \cup (IF o.hadStop THEN {} ELSE UNION {{V(e.p, "work queue of " \o Short(n) \o ": " \o e.m, "") : e \in RQQuiescent(o.rq[n])} : n \in DOMAIN o.rq})
+           \cup (IF o.hadStop THEN {} ELSE UNION {{V(e.p, "cached resource " \o Short(k) \o ": " \o e.m, "") : e \in RSTQuiescent(o.rst[k])} : k \in DOMAIN o.rst})
            \cup (IF o.hadStop THEN {} ELSE UNION {{V("C09", "cache entry " \o Short(n) \o ": " \o m, "") : m \in CEQuiescent(o.ce[n])} : n \in DOMAIN o.ce})
            \cup UNION {{V("C13", "no query request for cached query " \o k \o " on query event " \o sj, "")
                         : k \in {x \in o.qev[sj].must \ o.qev[sj].got : QSubscribed(x) /\ AnnOf(o.ann, x).st = "ld"}} : sj \in DOMAIN o.qev}
